@@ -969,10 +969,13 @@ func (ex *Exec) calleeModifies(com *ssa.CallCommon) (mods []string, all bool) {
 		}
 		return nil, false
 	}
+	if _, isBuiltin := com.Value.(*ssa.Builtin); isBuiltin {
+		return nil, false
+	}
 	if callee := com.StaticCallee(); callee != nil {
 		if c := ex.cs.Lookup(callee.String()); c != nil {
 			if c.Inline {
-				return nil, true
+				return ex.fnModifies(callee, map[*ssa.Function]bool{})
 			}
 			return c.Modifies, false
 		}
